@@ -463,14 +463,28 @@ func c08CrossValidate(env *core.Env, cfgs []c08Cfg) int {
 			}
 			ids[k] = fx.NewTask(f)
 		}
+		// ergo refuses edges that would close a waits-for cycle (also through epic-level dependencies): such
+		// configurations exist only as hand-merged logs and cannot be rebuilt through the CLI
+		refused := false
+		link := func(a, b string) {
+			if res := fx.Run(core.R("", "sequence", a, b)); res.Exit != 0 {
+				if !strings.Contains(string(res.Err), "cycle") {
+					env.HarnessError("fixture command failed: sequence %s %s: %s", a, b, res)
+				}
+				refused = true
+			}
+		}
 		for _, d := range c.Deps {
-			fx.Must(core.R("", "sequence", ids[d[1]], ids[d[0]]))
+			link(ids[d[1]], ids[d[0]])
 		}
 		switch c.EpicDep {
 		case 1:
-			fx.Must(core.R("", "sequence", e[1], e[0]))
+			link(e[1], e[0])
 		case 2:
-			fx.Must(core.R("", "sequence", e[0], e[1]))
+			link(e[0], e[1])
+		}
+		if refused {
+			return
 		}
 		for k, t := range c.Tasks {
 			switch t.State {
